@@ -7,8 +7,10 @@ package main
 
 import (
 	"bytes"
+	"context"
 	"io/ioutil"
 	"net/http"
+	"net/url"
 	"os"
 
 	"github.com/folbricht/desync"
@@ -169,5 +171,88 @@ func VerifC11_CmdRemoteCache_E() {
 		verified, _ := desync.NewLocalStore(root+"/cachedir", desync.StoreOptions{})
 		_, gerr := verified.GetChunk(id)
 		vAssert(gerr == nil, "the damaged cache entry was not replaced")
+	}
+}
+
+// VerifC16_CmdPruneConfigured_E: `desync prune -s <store> <index>` (whole runPrune) for a local
+// store whose options come from the config file: the store is configured as uncompressed under
+// its absolute path and named on the command line in one of several spellings of that path.
+// Whatever the spelling, prune works on the store's own format: the compressed file of the same
+// store survives, the unreferenced uncompressed chunk goes, the referenced one stays.
+func VerifC16_CmdPruneConfigured_E() {
+	root := vTempDir() // "/vrootN"; the working directory of the model is "/"
+	os.Mkdir(root+"/store", 0755)
+	os.Mkdir(root+"/x", 0755)
+	unc, _ := desync.NewLocalStore(root+"/store", desync.StoreOptions{Uncompressed: true})
+	cmp, _ := desync.NewLocalStore(root+"/store", desync.StoreOptions{})
+	keep, drop, other := desync.NewChunk([]byte{1}), desync.NewChunk([]byte{2}), desync.NewChunk([]byte{3})
+	vAssert(unc.StoreChunk(keep) == nil && unc.StoreChunk(drop) == nil && cmp.StoreChunk(other) == nil, "store setup")
+	idx := desync.Index{Index: desync.FormatIndex{FeatureFlags: desync.CaFormatSHA512256, ChunkSizeMin: 1, ChunkSizeAvg: 1, ChunkSizeMax: 1},
+		Chunks: []desync.IndexChunk{{ID: keep.ID(), Start: 0, Size: 1}}}
+	f, _ := os.Create(root + "/keep.caibx")
+	idx.WriteTo(f)
+	f.Close()
+	cfg = Config{StoreOptions: map[string]desync.StoreOptions{root + "/store": {Uncompressed: true}}}
+	spellings := []string{root + "/store", root[1:] + "/store", root + "/store/", root + "/./store", root + "/x/../store"}
+	var opt pruneOptions
+	addStoreOptions(&opt.cmdStoreOptions, pflag.NewFlagSet("verif", pflag.ContinueOnError))
+	opt.n = 1
+	opt.yes = true
+	opt.store = spellings[vChoose("spelling", len(spellings))]
+	err := runPrune(context.Background(), opt, []string{root + "/keep.caibx"})
+	vCover("prune-returned")
+	vAssert(err == nil, "prune of a healthy local store failed")
+	exists := func(c *desync.Chunk, ext string) bool {
+		id := c.ID()
+		s := id.String()
+		_, e := os.Stat(root + "/store/" + s[0:4] + "/" + s + ext)
+		return e == nil
+	}
+	vAssert(exists(other, ".cacnk"), "prune deleted a chunk file of the other compression format (store options of the config not applied?)")
+	vAssert(exists(keep, ""), "prune deleted a referenced chunk")
+	if err == nil {
+		vAssert(!exists(drop, ""), "prune reported success but left an unreferenced chunk of the store's own format")
+	}
+}
+
+// VerifC15_CmdChunkServerAuth_E: the `desync chunk-server` command itself (runChunkServer: option
+// validation, store chain, handler registration on the default mux; listening fails at once in the
+// model) with the authorization value given by --authorization or by DESYNC_HTTP_AUTH: the
+// handler it registered answers 401 to a request without the value and serves one that has it.
+func VerifC15_CmdChunkServerAuth_E() {
+	root := vTempDir()
+	os.Mkdir(root+"/store", 0755)
+	ls, _ := desync.NewLocalStore(root+"/store", desync.StoreOptions{})
+	good := desync.NewChunk([]byte{0x61, 0x62})
+	vAssert(ls.StoreChunk(good) == nil, "store setup")
+	var opt chunkServerOptions
+	addStoreOptions(&opt.cmdStoreOptions, pflag.NewFlagSet("verif", pflag.ContinueOnError))
+	opt.n = 1
+	opt.stores = []string{root + "/store"}
+	opt.listenAddresses = []string{":0"}
+	if vChoose("secret-from", 2) == 0 {
+		opt.auth = "secret"
+	} else {
+		os.Setenv("DESYNC_HTTP_AUTH", "secret")
+	}
+	http.DefaultServeMux = http.NewServeMux() // a fresh default mux for this run (package initialisers are not executed by the engine)
+	err := runChunkServer(context.Background(), opt, nil)
+	vCover("server-returned")
+	vAssert(err == nil, "chunk-server failed to start over a local store")
+	id := good.ID()
+	hx := id.String()
+	path := "/" + hx[0:4] + "/" + hx + ".cacnk"
+	for k, hdr := range []string{"", "wrong", "secret"} {
+		w := &verifRecorderRW{}
+		r := &http.Request{Method: "GET", URL: &url.URL{Path: path}, Header: http.Header{}, Body: ioutil.NopCloser(bytes.NewReader(nil)), RequestURI: path}
+		if hdr != "" {
+			r.Header["Authorization"] = []string{hdr}
+		}
+		http.DefaultServeMux.ServeHTTP(w, r)
+		if k < 2 {
+			vAssert(w.code == 401, "the server started by the CLI serves a request that does not carry the configured authorization value")
+		} else {
+			vAssert(w.code == 200, "the server started by the CLI refuses the configured authorization value")
+		}
 	}
 }
